@@ -403,6 +403,12 @@ def run_histories(sh, lab, n, maxlen):
                     break
                 if not is_open:
                     closed_ids.append(ident)
+                    if now[which] != seen[which]:
+                        # a suppressed write is no write at all: no cursor codes, no reprint of what other sections show
+                        sh.violate("gate", record, "step %d: the suppressed %s.%s(flags=%r) still put %r on the stream" % (
+                            step, name, meth, fl, now[which][len(seen[which]):][:60]))
+                        ok = False
+                        break
             else:
                 if not is_open and now[which] != seen[which]:
                     sh.violate("gate", record, "step %d: %s.clear(flags=%r) with that output at verbosity %d quiet=%s wrote %r" % (
